@@ -87,6 +87,18 @@ pub fn coincidence_labels(a: &G, b: &G, info: &ArrInfo, obs: &mut Obs) {
             if tangent {
                 obs.label("co:hole-tangent");
             }
+        }
+        // a vertex of one ring strictly inside an edge of another ring (of the same polygon or of another member)
+        {
+            let rings: Vec<&Vec<crate::exact::C>> = polys.iter().flat_map(|p| p.rings()).collect();
+            let touch = rings.iter().enumerate().any(|(i, r)| r[..r.len().saturating_sub(1)].iter().any(|v| {
+                rings.iter().enumerate().any(|(j, q)| i != j && q.windows(2).any(|w| *v != w[0] && *v != w[1] && crate::exact::on_segment_int(w[0], w[1], *v)))
+            }));
+            if touch {
+                obs.label("co:ring-vertex-inside-an-edge-of-another-ring");
+            }
+        }
+        for po in &polys {
             if !po.holes.is_empty() {
                 obs.label("has-hole");
             }
@@ -254,6 +266,41 @@ impl Property for C01 {
         let gb = to_geo(&c.b, &c.xf);
         let ctx = || format!("A={} B={} xf={:?}", wkt(&c.a), wkt(&c.b), c.xf);
 
+        // input class for the known-findings matcher: an edge of one operand runs (not collinearly) through a point where two
+        // rings of the OTHER operand touch, one with a vertex strictly inside an edge of the other - the JTS-style shortcut for
+        // "proper" boundary crossings of two areas then assumes that the boundary enters the exterior there
+        let cls = {
+            let touch_points = |g: &G| -> Vec<(crate::exact::C, (crate::exact::C, crate::exact::C))> {
+                let (mut p0, mut l0, mut po) = (vec![], vec![], vec![]);
+                g.parts(&mut p0, &mut l0, &mut po);
+                let rings: Vec<&Vec<crate::exact::C>> = po.iter().flat_map(|p| p.rings()).collect();
+                let mut out = vec![];
+                for (i, r) in rings.iter().enumerate() {
+                    for v in &r[..r.len().saturating_sub(1)] {
+                        for (j, q) in rings.iter().enumerate() {
+                            if i != j {
+                                for w in q.windows(2) {
+                                    if *v != w[0] && *v != w[1] && crate::exact::on_segment_int(w[0], w[1], *v) {
+                                        out.push((*v, (w[0], w[1])));
+                                    }
+                                }
+                            }
+                        }
+                    }
+                }
+                out
+            };
+            let through = |tps: &Vec<(crate::exact::C, (crate::exact::C, crate::exact::C))>, other: &G| -> bool {
+                let cross = |a: crate::exact::C, b: crate::exact::C, c: crate::exact::C| (b.0 - a.0) * (c.1 - a.1) - (b.1 - a.1) * (c.0 - a.0);
+                tps.iter().any(|(t, e)| other.segments().iter().any(|s| s.0 != s.1 && *t != s.0 && *t != s.1 && crate::exact::on_segment_int(s.0, s.1, *t) && cross(e.0, e.1, s.0) != 0))
+            };
+            if (c.a.dim() == 2 && c.b.dim() == 2) && (through(&touch_points(&c.a), &c.b) || through(&touch_points(&c.b), &c.a)) {
+                obs.label("co:area-edge-through-a-touch-point-of-the-other-area");
+                "[area-edge-through-a-touch-point-of-the-other-area]"
+            } else {
+                ""
+            }
+        };
         // (1) concrete relate equals the oracle
         let got = match relate_concrete(&ga, &gb) {
             Ok(m) => m,
@@ -265,7 +312,7 @@ impl Property for C01 {
         obs.cmp();
         if got != want {
             obs.fail(
-                format!("relate:{ta}/{tb}|matrix"),
+                format!("relate{cls}:{ta}/{tb}|matrix"),
                 format!("relate = {} but true DE-9IM = {}; {}", got.to_string9(), want.to_string9(), ctx()),
             );
         }
@@ -275,7 +322,7 @@ impl Property for C01 {
                 obs.cmp();
                 if m != want.transpose() {
                     obs.fail(
-                        format!("relate:{tb}/{ta}|matrix"),
+                        format!("relate{cls}:{tb}/{ta}|matrix"),
                         format!("relate(B,A) = {} but true = {}; {}", m.to_string9(), want.transpose().to_string9(), ctx()),
                     );
                 }
@@ -307,7 +354,7 @@ impl Property for C01 {
                         obs.cmp();
                         obs.label("scalar:f32");
                         if m != want {
-                            obs.fail(format!("relate<f32>:{ta}/{tb}|matrix"), format!("relate::<f32> = {} but true DE-9IM = {} (f64 gave {}); {}", m.to_string9(), want.to_string9(), got.to_string9(), ctx()));
+                            obs.fail(format!("relate{cls}<f32>:{ta}/{tb}|matrix"), format!("relate::<f32> = {} but true DE-9IM = {} (f64 gave {}); {}", m.to_string9(), want.to_string9(), got.to_string9(), ctx()));
                         }
                     }
                     Err(p) => obs.fail(format!("relate<f32>:{ta}/{tb}|panic|{}", p.site()), format!("{} {}", p, ctx())),
@@ -353,7 +400,7 @@ impl Property for C01 {
                     obs.cmp();
                     if m != want {
                         obs.fail(
-                            format!("relate:{tva}/{tvb}|matrix"),
+                            format!("relate{cls}:{tva}/{tvb}|matrix"),
                             format!(
                                 "re-representation: relate = {} but true DE-9IM = {} (original representation gave {}); A'={} B'={} xf={:?}",
                                 m.to_string9(), want.to_string9(), got.to_string9(), wkt(&va), wkt(&vb), c.xf
